@@ -376,6 +376,10 @@ func (r *Router) connect(si *ServerIdentity) (Conn, uint64, error) {
 	log.Lvl3(r.address, "Connected to", si.Address)
 	var sentLen uint64
 	if sentLen, err = c.Send(r.ServerIdentity); err != nil {
+		// Nobody else knows this connection: close it.
+		if cerr := c.Close(); cerr != nil {
+			log.Lvl3("closing connection after failed identity exchange:", cerr)
+		}
 		return nil, sentLen, xerrors.Errorf("sending: %v", err)
 	}
 
